@@ -187,3 +187,4 @@ pub mod c25;
 pub mod c01;
 pub mod c01gen;
 pub mod c01vec;
+pub mod c01bnd;
